@@ -379,7 +379,7 @@ pub fn gen_aop(rng: &mut Rng, sheets: usize, alpha: usize, tag: &str, w: &[u32; 
             sqref: sq,
             kind: rng.below(6) as u8,
             op: rng.below(8) as u8,
-            f1: format!("{}", rng.below(100)),
+            f1: if rng.chance(1, 4) { "\"a,b & c,<d>\"".to_string() } else { format!("{}", rng.below(100)) },
             f2: if rng.chance(1, 2) { format!("{}", 100 + rng.below(100)) } else { String::new() },
             prompt_title: if rng.chance(1, 2) { format!("{}pt{}", tag, sized_text(rng, alpha, 26)) } else { String::new() },
             prompt: if rng.chance(1, 2) { format!("{}p{}", tag, sized_text(rng, alpha, 248)) } else { String::new() },
